@@ -68,39 +68,58 @@ def make_obj(i: str, v: int):
     number, which is what the model stores as the object's content (it treats content as opaque)"""
     model, _ = _sdk()
     return model.Submodel(i, submodel_element=[model.Property("v", model.datatypes.Int, v),
-                                               model.SubmodelElementList("L", model.Property, value_type_list_element=model.datatypes.Int)])
+                                               model.SubmodelElementList("L", model.Property, value_type_list_element=model.datatypes.Int),
+                                               _rel(False)])
 
 
-def fold(v: int, digits: List[int]) -> int:
-    return v + 1000 * int("".join(map(str, digits)) or "0")
+def _rel(annotated: bool):
+    """element "r": a relationship, plain or annotated (sub-/superclass of each other)"""
+    model, _ = _sdk()
+    a = model.ExternalReference((model.Key(model.KeyTypes.GLOBAL_REFERENCE, "urn:a"),))
+    if annotated:
+        return model.AnnotatedRelationshipElement("r", a, a, annotation=[model.Property("n", model.datatypes.Int, 1)])
+    return model.RelationshipElement("r", a, a)
+
+
+def fold(v: int, digits: List[int], annotated: bool = False) -> int:
+    return v + (500 if annotated else 0) + 1000 * int("".join(map(str, digits)) or "0")
+
+
+def unfold3(c: int) -> Tuple[int, List[int], bool]:
+    return c % 500, ([int(ch) for ch in str(c // 1000)] if c >= 1000 else []), (c % 1000) >= 500
 
 
 def unfold(c: int) -> Tuple[int, List[int]]:
-    return c % 1000, [int(ch) for ch in str(c // 1000)] if c >= 1000 else []
+    return unfold3(c)[:2]
 
 
 def ledit_ref(c: int, how: str, x: int) -> int:
-    """reference semantics of a list edit on folded content"""
-    v, ds = unfold(c)
+    """reference semantics of an edit on folded content"""
+    v, ds, ann = unfold3(c)
     if how == "ins0" and len(ds) < 4:
         ds = [x] + ds
     elif how == "app" and len(ds) < 4:
         ds = ds + [x]
     elif how == "pop0" and ds:
         ds = ds[1:]
-    return fold(v, ds)
+    elif how == "rel":
+        ann = not ann
+    return fold(v, ds, ann)
 
 
 def ver_of(o) -> Any:
     try:
-        return fold(o.get_referable("v").value, [p.value for p in o.get_referable("L").value])
+        model, _ = _sdk()
+        return fold(o.get_referable("v").value, [p.value for p in o.get_referable("L").value],
+                    type(o.get_referable("r")) is model.AnnotatedRelationshipElement)
     except Exception as e:  # pragma: no cover
         return "no-version:" + type(e).__name__
 
 
 def ver_of_json(data: dict) -> int:
     els = {e.get("idShort"): e for e in data["submodelElements"]}
-    return fold(int(els["v"]["value"]), [int(p["value"]) for p in els["L"].get("value", [])])
+    return fold(int(els["v"]["value"]), [int(p["value"]) for p in els["L"].get("value", [])],
+                els["r"]["modelType"] == "AnnotatedRelationshipElement")
 
 
 def hash_of(i: str) -> str:
@@ -218,6 +237,10 @@ class World:
                         lst.add(model.Property(None, model.datatypes.Int, op[3]))
                     elif op[2] == "pop0" and len(lst) > 0:
                         lst.pop(0)
+                    elif op[2] == "rel":
+                        old = o.get_referable("r")
+                        o.submodel_element.remove(old)
+                        o.submodel_element.add(_rel(type(old) is not model.AnnotatedRelationshipElement))
                 elif k == "drop":
                     self.strong[op[1]] = None
                 elif k == "commit":
@@ -231,7 +254,12 @@ class World:
                     finally:
                         self._sync_order(o.id)
                 else:
-                    o.update()
+                    # every other refresh enters through a contained element
+                    child = o.get_referable("v")
+                    if (child.value or 0) % 2 == 0:
+                        child.update()
+                    else:
+                        o.update()
                 del o
                 return ["unit"]
             if k in ("add", "discard", "contains_obj"):
@@ -344,7 +372,7 @@ def gen_history(rng: random.Random, w: World, length: int, ninst: int, ids: List
             ver[0] += 1
             op = ["setver", rng.choice(lv), ver[0]]
         elif x < 0.63:
-            op = ["ledit", rng.choice(lv), rng.choice(["ins0", "ins0", "app", "pop0"]), rng.randint(1, 9)]
+            op = ["ledit", rng.choice(lv), rng.choice(["ins0", "ins0", "app", "pop0", "rel", "rel"]), rng.randint(1, 9)]
         elif x < 0.71:
             op = ["commit", rng.choice(lv)]
         elif x < 0.78:
@@ -773,7 +801,7 @@ def check_sequence(ops: List[List[Any]]) -> Optional[C.Failing]:
                 r = out[1]
                 local[r], attached[r], oid[r] = op[2], False, op[1]
             elif k == "setver":
-                local[op[1]] = fold(op[2], unfold(local[op[1]])[1])
+                local[op[1]] = fold(op[2], *unfold3(local[op[1]])[1:])
             elif k == "ledit":
                 local[op[1]] = ledit_ref(local[op[1]], op[2], op[3])
             elif k == "drop":
